@@ -345,7 +345,7 @@ fn main() {
         "an Err for a message of tick T must leave ack_tick != Some(T) unless T had been accepted before (a late duplicate of an accepted tick is refused as old)".into(),
     ];
     ctx.arm("c13", 1800.0);
-    let n = ctx.volume(400, 12_000, 1, 6);
+    let n = ctx.volume(400, 12_000, 4, 6);
     ctx.run_cases("history", n, |ctx, _i, rng| {
         let ticks = match ctx.tier {
             Tier::Miri => 12,
